@@ -71,7 +71,11 @@ type c17Case struct {
 	Ctor    string `json:"ctor,omitempty"`    // slash middleware: "" = ...WithConfig{RedirectCode: Code}, "plain" = AddTrailingSlash() / RemoveTrailingSlash()
 	Skip    int    `json:"skip,omitempty"`    // slash middleware Skipper: 0 nil | 1 middleware.DefaultSkipper | 2 always skips | 3 skips paths containing "example"
 	Variant string `json:"variant,omitempty"` // static route: "" Static(dir) | fs StaticFS(os.DirFS) | subfs StaticFS(MustSubFS) | mapfs StaticFS(fstest.MapFS) | handler GET(StaticDirectoryHandler(fs,false)) | raw Add(GET, StaticDirectoryHandler(fs,true)) | rel Static(dir relative to the working directory)
-	Pre     string `json:"pre,omitempty"`     // static route: "" | add | remove — that slash middleware (Ctor, Skip, Code) under e.Pre in front of the route
+	// round 5: parts of the URL that can be present but empty / present without saying anything new
+	ForceQuery bool   `json:"force_query,omitempty"` // the request target ends in a bare `?` (URL.ForceQuery; only meaningful with an empty query)
+	Fragment   a2bstr `json:"fragment,omitempty"`    // URL.Fragment (a server never parses one out of a request target; an earlier middleware may have set it)
+	Host       string `json:"host,omitempty"`        // absolute-form request target: URL.Scheme = "http", URL.Host = this
+	Pre        string `json:"pre,omitempty"`         // static route: "" | add | remove — that slash middleware (Ctor, Skip, Code) under e.Pre in front of the route
 }
 
 // ---------- the directory trees served by the static cases ----------
@@ -287,6 +291,12 @@ func c17Run(ci any) (res Result) {
 	}
 	req := httptest.NewRequest(method, "/", nil)
 	req.URL.Path, req.URL.RawPath, req.URL.RawQuery = path, raw, qs
+	req.URL.ForceQuery = c.ForceQuery
+	req.URL.Fragment = string(c.Fragment)
+	if c.Host != "" {
+		req.URL.Scheme, req.URL.Host = "http", c.Host
+	}
+	urlToks := wJoin(wStr(path), wStr(raw), wStr(qs), wBool(c.ForceQuery), wStr(string(c.Fragment)), wStr(c.Host))
 	req.RequestURI = c17ReqURI
 	rec := httptest.NewRecorder()
 
@@ -306,7 +316,7 @@ func c17Run(ci any) (res Result) {
 				return ctx.NoContent(http.StatusOK)
 			}
 		})
-		ops = wJoin("M", toks, wStr(path), wStr(qs), wStr(c17ReqURI))
+		ops = wJoin("M", toks, urlToks, wStr(c17ReqURI))
 		if effCode == 0 {
 			tags = append(tags, "forward-mode")
 		}
@@ -418,7 +428,7 @@ func c17Run(ci any) (res Result) {
 		t := c17Trees[ti]
 		switch {
 		case preToks != "" && method == http.MethodGet:
-			ops = wJoin("P", preToks, wStr(path), wStr(qs), wStr(c17ReqURI), wBool(disable), wStrs(t.dirs), wStrs(t.files), wBool(routed), wStr(param))
+			ops = wJoin("P", preToks, urlToks, wStr(c17ReqURI), wBool(disable), wStrs(t.dirs), wStrs(t.files), wBool(routed), wStr(param))
 		case preToks != "":
 			tags = append(tags, "static:pre-non-GET(oracle only)")
 		case routed:
@@ -500,6 +510,7 @@ func c17Run(ci any) (res Result) {
 			q = "?" + qs
 		}
 		validCode := effCode >= 300 && effCode <= 308
+		bare := c.ForceQuery && qs == ""
 		want, change := "", false
 		if c.Comp == "add" && c17Ordinary(path) && !strings.HasSuffix(path, "/") {
 			want, change = path+"/", true
@@ -516,11 +527,13 @@ func c17Run(ci any) (res Result) {
 			case validCode:
 				// (the property fixes the target, not which 3xx code carries it; the configured
 				// code is part of the comparison with the model)
-				if !isRedirect || loc != want+q {
+				// (an empty query that was present - a bare `?` - may be kept or dropped: both
+				// preserve the query string; which one is part of the comparison with the model)
+				if !isRedirect || (loc != want+q && !(bare && loc == want+"?")) {
 					fail("ordinary path %q: expected a redirect (%d) with Location %q, got status %d Location %q", path, effCode, want+q, status, loc)
 				}
 			case c.Code == 0:
-				if !nextRan || nextPath != want || nextURI != want+q {
+				if !nextRan || nextPath != want || (nextURI != want+q && !(bare && nextURI == want+"?")) {
 					fail("ordinary path %q (forward mode): expected the handler to see path %q uri %q, got ran=%v %q %q", path, want, want+q, nextRan, nextPath, nextURI)
 				}
 			}
@@ -572,6 +585,21 @@ func c17Run(ci any) (res Result) {
 	}
 	if !strings.HasPrefix(path, "/") {
 		tags = append(tags, "path-not-rooted")
+	}
+	if c.ForceQuery && qs == "" {
+		tags = append(tags, "url:bare-question-mark")
+		if isRedirect {
+			tags = append(tags, "redirect:bare-question-mark")
+		}
+	}
+	if c.Fragment != "" {
+		tags = append(tags, "url:fragment")
+	}
+	if c.Host != "" {
+		tags = append(tags, "url:absolute-form(host)")
+	}
+	if raw != "" && raw == path {
+		tags = append(tags, "url:RawPath==Path")
 	}
 	return Result{Ops: ops, Obs: obs, Oracle: oracle, Tags: tags, Nontrivial: nontrivial}
 }
@@ -802,6 +830,29 @@ func c17GenCase(r *rand.Rand) *c17Case {
 			c.RawPath = a2bstr(enc)
 		}
 	}
+	// present but empty: the target ends in a bare `?` (what url.ParseRequestURI makes of "/x?")
+	if c.Query == "" && r.Intn(4) == 0 {
+		c.ForceQuery = true
+	} else if r.Intn(40) == 0 {
+		c.ForceQuery = true // with a query: the flag says nothing
+	}
+	// present without saying anything new: a RawPath that only repeats Path
+	if c.RawPath == "" && r.Intn(15) == 0 {
+		c.RawPath = c.Path
+	}
+	if r.Intn(25) == 0 {
+		c.Fragment = a2bstr([]string{"f", "/evil.com", "//evil.com", "?x"}[r.Intn(4)])
+	}
+	if r.Intn(25) == 0 {
+		c.Host = []string{"evil.com", "example.com:8080", "localhost"}[r.Intn(3)]
+	}
+	// the mount point itself, without the slash that would make it match the wildcard route
+	if wantDir && base != "" && r.Intn(12) == 0 {
+		c.Path, c.RawPath = a2bstr("/"+strings.TrimSuffix(base, "/")), ""
+		if baseEnc != base {
+			c.RawPath = a2bstr("/" + strings.TrimSuffix(baseEnc, "/"))
+		}
+	}
 	return c
 }
 
@@ -810,7 +861,7 @@ func c17Gen(r *rand.Rand, tier string) []any {
 	if tier == "thorough" {
 		n = 400000
 	}
-	out := make([]any, 0, n+1300)
+	out := make([]any, 0, n+2000)
 	for i := 0; i < n; i++ {
 		out = append(out, c17GenCase(r))
 	}
@@ -844,10 +895,14 @@ func c17Gen(r *rand.Rand, tier string) []any {
 	for _, first := range []string{"/", "\\"} {
 		for _, t := range tails {
 			for _, comp := range []string{"add", "remove"} {
-				for _, q := range []string{"", "a=1"} {
+				for _, q := range []string{"", "a=1", "?"} {
 					p := first + t
 					if comp == "remove" {
 						p += "/"
+					}
+					if q == "?" { // the target ends in a bare `?`
+						out = append(out, &c17Case{Comp: comp, Code: 301, Path: a2bstr(p), ForceQuery: true})
+						continue
 					}
 					out = append(out, &c17Case{Comp: comp, Code: 301, Path: a2bstr(p), Query: a2bstr(q)})
 				}
@@ -868,6 +923,16 @@ func c17Shrink(ci any) []any {
 	if c.Query != "" {
 		d := *c
 		d.Query = ""
+		out = append(out, &d)
+	}
+	if c.Fragment != "" || c.Host != "" {
+		d := *c
+		d.Fragment, d.Host = "", ""
+		out = append(out, &d)
+	}
+	if c.ForceQuery {
+		d := *c
+		d.ForceQuery = false
 		out = append(out, &d)
 	}
 	if c.Pre != "" {
@@ -909,6 +974,27 @@ func c17Shrink(ci any) []any {
 		}
 		out = append(out, &d)
 	}
+	// an escaped target: drop one (escaped) character and keep Path what a server would derive from it
+	if rp := string(c.RawPath); rp != "" {
+		for i := len(rp) - 1; i >= 1; i-- {
+			if (i >= 1 && rp[i-1] == '%') || (i >= 2 && rp[i-2] == '%') {
+				continue
+			}
+			n := 1
+			if rp[i] == '%' && i+3 <= len(rp) {
+				n = 3
+			}
+			cut := rp[:i] + rp[i+n:]
+			if dec, err := url.PathUnescape(cut); err == nil {
+				d := *c
+				d.RawPath, d.Path = a2bstr(cut), a2bstr(dec)
+				if cut == dec {
+					d.RawPath = ""
+				}
+				out = append(out, &d)
+			}
+		}
+	}
 	for i := len(c.Path) - 1; i >= 0; i-- {
 		d := *c
 		d.Path = c.Path[:i] + c.Path[i+1:]
@@ -937,9 +1023,13 @@ func c17Mutate(r *rand.Rand, ci any) []any {
 	c := ci.(*c17Case)
 	var out []any
 	for _, p := range []string{"//example.com", "/\\example.com", "/\t/example.com", "/\\\n/example.com", "/\r\n//example.com", "///example.com/..", "//example.com/../.."} {
-		for _, q := range []string{string(c.Query), "", "next=1"} {
+		for _, q := range []string{string(c.Query), "", "next=1", "?"} {
 			d := *c
 			d.Path, d.RawPath, d.Query = a2bstr(p), "", a2bstr(q)
+			d.ForceQuery = false
+			if q == "?" {
+				d.Query, d.ForceQuery = "", true
+			}
 			if c.Comp == "remove" {
 				d.Path += "/"
 			}
@@ -965,9 +1055,11 @@ func c17Mutate(r *rand.Rand, ci any) []any {
 					es[i] = sg
 				}
 			}
-			for _, tail := range []string{"", "a", "evil.com", "g"} {
+			for _, tail := range []string{"", "a", "evil.com", "g", "-"} {
 				dec, enc := "/"+strings.Join(segs, "/"), "/"+strings.Join(es, "/")
-				if tail != "" {
+				if tail == "-" { // the mount point itself, without its trailing slash
+					dec, enc = strings.TrimSuffix(dec, "/"), strings.TrimSuffix(enc, "/")
+				} else if tail != "" {
 					if !strings.HasSuffix(dec, "/") {
 						dec, enc = dec+"/", enc+"/"
 					}
@@ -989,7 +1081,7 @@ func c17Mutate(r *rand.Rand, ci any) []any {
 func init() {
 	register(&Prop{
 		ID:     "C17",
-		Rule:   "request URLs built from tokens: first char `/` (rarely `\\` or none), optional static route prefix, a leading mix of 0-4 of {/, \\, %2f, %5c, TAB, CR, LF (raw or escaped), other C0 controls, space, DEL, NBSP}, a host-like or tree segment, `..` climbs (plain/escaped) back to a directory for the static components, tails, +/- query; URL.Path/RawPath as a real server would set them when the target parses, set directly otherwise; x {AddTrailingSlash, RemoveTrailingSlash (RedirectCode 300..308, 0 = forward, invalid codes; 1 in 10 built with the constructor without config, 1 in 10 with a Skipper: nil-equivalent DefaultSkipper / always / paths containing 'example'), Echo.Static, Group.Static over two real directory trees} x request method (GET for half of the slash cases and 4/5 of the static cases, else HEAD/POST/PUT/PATCH/DELETE/OPTIONS/PROPFIND/X-CUSTOM/lower-case get; the model ignores the method); static routes: mount point below a literal prefix, the root, or a PATH PARAMETER (`/:site/`, `/:site/assets`, `/:a/:b/`, groups `/:site`, `/g/:site`: the parameter segments filled with {acme, \\example.com, %5Cexample.com, %2Fexample.com, %09%5Cexample.com, empty, ...}), half of them registered through another entry point (Static with a relative root, StaticFS with os.DirFS / MustSubFS / fstest.MapFS, GET or Add with StaticDirectoryHandler with and without path unescaping), 1 in 8 with a slash middleware under e.Pre in front of the route (mostly forwarding); one case in eight is a plain path for the 'ordinary paths' clause; plus, exhaustively, every string of length 1-4 over {/, \\, TAB, LF, e} starting with / or \\ through both slash middlewares with and without query (1248 cases). non-trivial = a redirect was produced and the unsanitised target (path±/ + query) would be read by a browser as an authority (another host); distinct = distinct model op lines",
+		Rule:   "request URLs built from tokens: first char `/` (rarely `\\` or none), optional static route prefix, a leading mix of 0-4 of {/, \\, %2f, %5c, TAB, CR, LF (raw or escaped), other C0 controls, space, DEL, NBSP}, a host-like or tree segment, `..` climbs (plain/escaped) back to a directory for the static components, tails, +/- query; URL.Path/RawPath as a real server would set them when the target parses, set directly otherwise; x {AddTrailingSlash, RemoveTrailingSlash (RedirectCode 300..308, 0 = forward, invalid codes; 1 in 10 built with the constructor without config, 1 in 10 with a Skipper: nil-equivalent DefaultSkipper / always / paths containing 'example'), Echo.Static, Group.Static over two real directory trees} x request method (GET for half of the slash cases and 4/5 of the static cases, else HEAD/POST/PUT/PATCH/DELETE/OPTIONS/PROPFIND/X-CUSTOM/lower-case get; the model ignores the method); static routes: mount point below a literal prefix, the root, or a PATH PARAMETER (`/:site/`, `/:site/assets`, `/:a/:b/`, groups `/:site`, `/g/:site`: the parameter segments filled with {acme, \\example.com, %5Cexample.com, %2Fexample.com, %09%5Cexample.com, empty, ...}), half of them registered through another entry point (Static with a relative root, StaticFS with os.DirFS / MustSubFS / fstest.MapFS, GET or Add with StaticDirectoryHandler with and without path unescaping), 1 in 8 with a slash middleware under e.Pre in front of the route (mostly forwarding); one case in eight is a plain path for the 'ordinary paths' clause; URL parts that are present but empty: a quarter of the query-less targets end in a bare `?` (URL.ForceQuery), 1 in 15 RawPath == Path, 1 in 25 a fragment, 1 in 25 an absolute-form target (URL.Host); 1 static case in 12 asks for the mount point itself without its slash; plus, exhaustively, every string of length 1-4 over {/, \\, TAB, LF, e} starting with / or \\ through both slash middlewares without query, with query and with a bare `?` (1872 cases). non-trivial = a redirect was produced and the unsanitised target (path±/ + query) would be read by a browser as an authority (another host); distinct = distinct model op lines",
 		New:    func() any { return &c17Case{} },
 		Gen:    c17Gen,
 		Run:    c17Run,
